@@ -16,7 +16,7 @@
       Props.v evaluated on this file abstraction and selection) *)
 From Coq Require Import Ascii String List Bool ZArith NArith.
 From PTBase Require Import Exn PyStr PyNum PyVal Wire.
-From P Require Import ListingHistory HistoryFuel HistorySpec.
+From P Require Import ListingHistory HistoryFuel HistorySpec HistoryRows.
 Import ListNotations.
 Open Scope char_scope.
 
@@ -101,8 +101,23 @@ Definition run_sel (fuel : nat) (F : hfile) (ms : list tmeta) (st : hstate) (q :
   | _ => s2l "BADSEL"
   end.
 
+(** second case kind:  rows TAB lines   with lines terminated by ';', each  offset,index,key  (key ids separated by '.')
+    result:  row_line ints terminated by ','  '|'  row keys terminated by '/'  '|'  skiplines terminated by ',' *)
+Definition parse_dline (s : str) : dline :=
+  match split_f "," s with
+  | [o; i; k] => {| d_off := nat_of_str o; d_idx := z_of_str i; d_key := parse_keyname k |}
+  | _ => {| d_off := O; d_idx := 0%Z; d_key := [] |}
+  end.
+Definition show_key (k : list Z) : str := join ["."] (map show_z k) ++ ["/"].
+Definition run_rows (s : str) : str :=
+  let ds := map parse_dline (split_term ";" s) in
+  concat (map (fun n => show_nat n ++ [","]) (row_line ds)) ++ ["|"] ++
+  concat (map show_key (rows ds)) ++ ["|"] ++
+  concat (map (fun n => show_nat n ++ [","]) (skiplines ds)).
+
 Definition run_case (line : str) : str :=
   match split_f tab line with
+  | [k; s] => if str_eqb k (s2l "rows") then run_rows s else s2l "BADCASE"
   | k :: sm :: sts :: sets :: metas :: st :: fl :: sels =>
       if str_eqb k (s2l "hist") then
         let F := {| hsim := parse_sim sm; hfix := str_eqb sm ["Q"]; hshort_types := map parse_kind sts; hsets := map parse_set (split_term ";" sets) |} in
